@@ -463,6 +463,18 @@ func C16label(p *load.Program, run *report.Run) {
 	}
 	for _, rf := range roles {
 		role := roleKey[rf]
+		if decider[rf] == 0 {
+			// equality spelled with arithmetic, the unknown labels counted, and the count ending the role
+			if why, found := accumulatedRejection(rf); found {
+				if why == "" {
+					decider[rf]++
+					run.OK("unknown-label-rejected", role+"/counted", p.Rel(rf.Pos()), "a label that equals neither L0 nor L1 (both XOR folds non-zero) advances a counter, and a non-zero counter ends the role with an error")
+				} else {
+					run.Violate("unknown-label-rejected", role+"/counted", p.Rel(rf.Pos()), why, nil)
+					continue
+				}
+			}
+		}
 		run.Count("result-decisions", decider[rf])
 		if decider[rf] == 0 {
 			run.Violate("unknown-label-rejected", role, "", "the role decides no result bit through a label comparison that rejects unknown labels (neither a local comparison chain nor a checked call of a function that has one)", nil)
@@ -522,4 +534,175 @@ func selectedLabelBit(eq *ssa.Call) ssa.Value {
 		}
 	}
 	return nil
+}
+
+// accumulatedRejection: the role compares the received label with both wire labels by XOR folds and keeps
+// a count of the labels that are neither.  found reports that the role has such folds; why is empty when
+//   - some block is reached only if both folds are non-zero (the label is unknown), and in it a loop-carried
+//     integer that starts at 0 is increased by a positive constant (or a flag is set), and
+//   - after the loop every success return lies behind a test of that value against 0 whose other side ends
+//     in an error.
+func accumulatedRejection(f *ssa.Function) (why string, found bool) {
+	type test struct {
+		blk  *ssa.BasicBlock
+		idx  int
+		neqT int // successor index on which the fold is non-zero
+	}
+	var tests []test
+	for _, b := range f.Blocks {
+		iff, ok := b.Instrs[len(b.Instrs)-1].(*ssa.If)
+		if !ok {
+			continue
+		}
+		idx, isV := xorFoldVerdict(iff.Cond)
+		if !isV {
+			continue
+		}
+		bo := iff.Cond.(*ssa.BinOp)
+		t := test{blk: b, idx: idx}
+		if bo.Op == token.EQL {
+			t.neqT = 1
+		}
+		tests = append(tests, t)
+	}
+	has := map[int]bool{}
+	for _, t := range tests {
+		has[t.idx] = true
+	}
+	if !has[0] || !has[1] {
+		return "", false
+	}
+	found = true
+	// blocks reached only with both folds non-zero
+	var unknownBlocks []*ssa.BasicBlock
+	for _, x := range f.Blocks {
+		d0, d1 := false, false
+		for _, t := range tests {
+			s := t.blk.Succs[t.neqT]
+			if len(s.Preds) == 1 && (s == x || s.Dominates(x)) {
+				if t.idx == 0 {
+					d0 = true
+				} else {
+					d1 = true
+				}
+			}
+		}
+		if d0 && d1 {
+			unknownBlocks = append(unknownBlocks, x)
+		}
+	}
+	if len(unknownBlocks) == 0 {
+		return "the label is compared with both wire labels by XOR folds, but no branch is taken exactly when both folds are non-zero: the outcomes are combined with arithmetic on the folded words (two non-zero words can AND to zero), so a label that is neither L0 nor L1 is not reliably rejected", true
+	}
+	// the counter: a phi with a constant-zero edge and an edge that is phi + positive constant computed in an unknown block
+	var counter *ssa.Phi
+	for _, b := range f.Blocks {
+		for _, ins := range b.Instrs {
+			ph, ok := ins.(*ssa.Phi)
+			if !ok {
+				continue
+			}
+			zero, grows := false, false
+			var visit func(v ssa.Value, d int)
+			seen := map[ssa.Value]bool{}
+			visit = func(v ssa.Value, d int) {
+				if d > 4 || seen[v] {
+					return
+				}
+				seen[v] = true
+				switch t := v.(type) {
+				case *ssa.Const:
+					if t.Value != nil && (t.Value.String() == "0" || t.Value.String() == "false") {
+						zero = true
+					}
+				case *ssa.BinOp:
+					if t.Op == token.ADD || t.Op == token.OR {
+						if k, isC := t.Y.(*ssa.Const); isC && k.Value != nil && k.Value.String() != "0" {
+							for _, ub := range unknownBlocks {
+								if t.Block() == ub {
+									grows = true
+								}
+							}
+						}
+					}
+				case *ssa.Phi:
+					for _, e := range t.Edges {
+						visit(e, d+1)
+					}
+				}
+			}
+			for _, e := range ph.Edges {
+				visit(e, 0)
+			}
+			if zero && grows && counter == nil {
+				counter = ph
+			}
+		}
+	}
+	if counter == nil {
+		return "both XOR folds are tested, but nothing is counted or flagged on the branch where both are non-zero", true
+	}
+	// success returns lie behind `counter == 0`
+	related := func(v ssa.Value) bool {
+		seen := map[ssa.Value]bool{}
+		var walk func(x ssa.Value, d int) bool
+		walk = func(x ssa.Value, d int) bool {
+			if x == ssa.Value(counter) {
+				return true
+			}
+			if d > 4 || seen[x] {
+				return false
+			}
+			seen[x] = true
+			if ph, ok := x.(*ssa.Phi); ok {
+				for _, e := range ph.Edges {
+					if walk(e, d+1) {
+						return true
+					}
+				}
+			}
+			return false
+		}
+		return walk(v, 0)
+	}
+	var guardOK []*ssa.BasicBlock
+	for _, b := range f.Blocks {
+		iff, ok := b.Instrs[len(b.Instrs)-1].(*ssa.If)
+		if !ok {
+			continue
+		}
+		bo, ok := iff.Cond.(*ssa.BinOp)
+		if !ok || (bo.Op != token.NEQ && bo.Op != token.EQL && bo.Op != token.GTR && bo.Op != token.LSS) {
+			continue
+		}
+		var other ssa.Value
+		if related(bo.X) {
+			other = bo.Y
+		} else if related(bo.Y) {
+			other = bo.X
+		}
+		k, isC := other.(*ssa.Const)
+		if !isC || k.Value == nil || k.Value.String() != "0" {
+			continue
+		}
+		zeroSide := 1 // NEQ / GTR / (0 < c): the false side has the counter at zero
+		if bo.Op == token.EQL {
+			zeroSide = 0
+		}
+		if errorExit(b.Succs[1-zeroSide]) {
+			guardOK = append(guardOK, b.Succs[zeroSide])
+		}
+	}
+	for _, sb := range successBlocks(f) {
+		ok := false
+		for _, g := range guardOK {
+			if len(g.Preds) == 1 && (g == sb || g.Dominates(sb)) {
+				ok = true
+			}
+		}
+		if !ok {
+			return "unknown labels are counted, but a success return is reachable without the count having been tested against zero on a branch whose other side is an error", true
+		}
+	}
+	return "", true
 }
